@@ -143,19 +143,41 @@ impl ClientCtx<'_, '_, '_, '_> {
         Self::set_timeout_tcp(&sock, self.lifetime_left()?)?;
         sock.write_all(&self.msg)?;
 
-        Self::set_timeout_tcp(&sock, self.lifetime_left()?)?;
+        let (start, lifetime) = (self.start, self.config.query_lifetime_);
+
         let mut response_size_buf = [0u8; 2];
-        sock.read_exact(&mut response_size_buf)?;
+        Self::read_exact_tcp(&mut sock, &mut response_size_buf, start, lifetime)?;
 
         let response_size = u16::from_be_bytes(response_size_buf) as usize;
         if response_size > self.buf.len() {
             return Err(Error::BufferTooShort(response_size));
         }
 
-        Self::set_timeout_tcp(&sock, self.lifetime_left()?)?;
-        sock.read_exact(&mut self.buf[..response_size])?;
+        Self::read_exact_tcp(&mut sock, &mut self.buf[..response_size], start, lifetime)?;
 
         Ok(response_size)
+    }
+
+    /// Fills `buf` from the stream, bounding the *whole* read by the query lifetime: the socket
+    /// timeout is renewed from what is left of the lifetime before every `read`, so a peer that
+    /// keeps trickling bytes cannot extend the call beyond it.
+    fn read_exact_tcp(
+        sock: &mut TcpStream,
+        buf: &mut [u8],
+        start: Instant,
+        lifetime: Duration,
+    ) -> Result<()> {
+        let mut filled = 0;
+        while filled < buf.len() {
+            Self::set_timeout_tcp(sock, Self::time_left(start, lifetime)?)?;
+            match sock.read(&mut buf[filled..]) {
+                Ok(0) => return Err(Error::IoError(ErrorKind::UnexpectedEof.into())),
+                Ok(n) => filled += n,
+                Err(e) if e.kind() == ErrorKind::Interrupted => {}
+                Err(e) => return Err(e.into()),
+            }
+        }
+        Ok(())
     }
 
     fn udp_exchange(&mut self) -> Result<(usize, Flags)> {
@@ -265,11 +287,15 @@ impl ClientCtx<'_, '_, '_, '_> {
     }
 
     fn lifetime_left(&self) -> Result<Duration> {
-        let elapsed = self.start.elapsed();
-        if elapsed >= self.config.query_lifetime_ {
+        Self::time_left(self.start, self.config.query_lifetime_)
+    }
+
+    fn time_left(start: Instant, lifetime: Duration) -> Result<Duration> {
+        let elapsed = start.elapsed();
+        if elapsed >= lifetime {
             return Err(Error::Timeout);
         }
-        Ok(self.config.query_lifetime_ - elapsed)
+        Ok(lifetime - elapsed)
     }
 
     fn query_left(&self) -> Result<Duration> {
